@@ -278,4 +278,81 @@ theorem running_new' {s s0 : St} {l : Label} {j : Nat} {k0 : ReqCore} (h : step0
               exact Or.inl ⟨k0, hk, hr⟩
   · exact Or.inl (runsub_step0 h hl j k0 hk hr)
 
+/-! ### tc_step -/
+
+/-- The transport-close counter and idleness. -/
+def tcv (s : St) : Nat × Bool := (s.transportCloses, s.idle)
+
+@[simp] theorem tcv_modCall (s : St) (n : Nat) (f : Call → Call) : tcv (modCall s n f) = tcv s := rfl
+@[simp] theorem tcv_modCore (s : St) (r : Nat) (f : ReqCore → ReqCore) : tcv (modCore s r f) = tcv s := rfl
+@[simp] theorem tcv_modMeta (s : St) (r : Nat) (f : ReqMeta → ReqMeta) : tcv (modMeta s r f) = tcv s := rfl
+@[simp] theorem tcv_cancelReq (s : St) (r : Nat) (c : Cause) : tcv (cancelReq s r c) = tcv s := rfl
+@[simp] theorem tcv_toP2 (s : St) (r : Nat) : tcv (toP2 s r) = tcv s := rfl
+@[simp] theorem tcv_setNotif (s : St) (w : Who) (f : Notif → Notif) : tcv (setNotif s w f) = tcv s := by cases w <;> rfl
+@[simp] theorem tcv_beginPR (s : St) (r : Nat) (o : Owner) : tcv (beginPR s r o) = tcv s := by
+  unfold beginPR; split
+  · rfl
+  · split <;> rfl
+@[simp] theorem tcv_afterP2 (s : St) (r : Nat) (o : Owner) : tcv (afterP2 s r o) = tcv s := by cases o <;> rfl
+@[simp] theorem tcv_retireIn (s : St) (n : Nat) (r : Res) : tcv (retireIn s n r) = tcv s := by
+  obtain ⟨cs, pr, h⟩ := retireIn_eq s n r; rw [h]; rfl
+@[simp] theorem tcv_markBroken (s : St) : tcv (markBroken s) = tcv s := by
+  rw [markBroken_eq]; split <;> rfl
+@[simp] theorem tcv_disp (s : St) (d : DispPc) : tcv { s with disp := d } = tcv s := rfl
+@[simp] theorem tcv_clock_disp (s : St) (c : Nat) (d : DispPc) : tcv { s with clock := c, disp := d } = tcv s := rfl
+@[simp] theorem tcv_cnotifs (s : St) (c : List Notif) : tcv { s with cnotifs := c } = tcv s := rfl
+
+theorem tail_tcv (X : St) (t : Nat) (ht : X.transportCloses = t) (hne : (tcv (tail X)).1 ≠ t) : (tcv (tail X)).2 = true := by
+  subst ht
+  unfold tail finish closeTransport at hne ⊢
+  simp only [tcv] at hne ⊢
+  repeat' split at hne
+  all_goals first
+    | exact absurd rfl hne
+    | skip
+  all_goals simp_all [St.idle]
+
+
+set_option linter.unusedSimpArgs false in
+set_option maxRecDepth 8000 in
+theorem tc_step0 {s s0 : St} {l : Label} (h : step0 s l = some s0) :
+    (tcv s0).1 ≠ s.transportCloses → (tcv s0).2 = true := by
+  by_cases hrx : l = .rx
+  · subst hrx
+    obtain ⟨cs, pr, rfl⟩ := rx_eq h
+    intro hne; exact tail_tcv _ _ rfl hne
+  cases l <;> simp only [step0] at h
+  all_goals (repeat' (split at h))
+  all_goals first
+    | (simp at hrx; done)
+    | (simp at h; done)
+    | (injection h with h; subst h
+       try simp only [tcv_modCall, tcv_modCore, tcv_modMeta, tcv_cancelReq, tcv_toP2, tcv_setNotif, tcv_beginPR, tcv_afterP2,
+         tcv_retireIn, tcv_markBroken, tcv_disp, tcv_clock_disp, tcv_cnotifs]
+       first
+       | (intro hne; exact absurd rfl hne)
+       | (intro hne; exact tail_tcv _ _ rfl hne)
+       | (intro hne; refine tail_tcv _ _ ?_ hne
+          show (tcv _).1 = _
+          simp only [tcv_modCall, tcv_modCore, tcv_modMeta, tcv_cancelReq, tcv_toP2, tcv_setNotif, tcv_beginPR, tcv_afterP2,
+            tcv_retireIn, tcv_markBroken]
+          done)
+       | (intro hne; refine tail_tcv _ _ ?_ hne
+          show (tcv _).1 = _
+          simp only [tcv_modCall, tcv_modCore, tcv_modMeta, tcv_cancelReq, tcv_toP2, tcv_setNotif, tcv_beginPR, tcv_afterP2,
+            tcv_retireIn, tcv_markBroken]
+          rfl)
+       | (trace_state; sorry))
+
+/-- The transport is closed only by a step that leaves the connection idle. -/
+theorem tc_step' {s s' : St} {l : Label} (h : step s l = some s') (hc : s'.transportCloses ≠ s.transportCloses) :
+    s'.idle = true := by
+  simp only [step, Option.map_eq_some_iff] at h
+  obtain ⟨s0, h0, rfl⟩ := h
+  have hv := fview_settle s0
+  have h1 : (settle s0).transportCloses = s0.transportCloses := congrArg FV.transportCloses hv
+  have h2 : (settle s0).idle = s0.idle := congrArg FV.idle hv
+  rw [h2]; rw [h1] at hc
+  exact tc_step0 h0 hc
+
 end Conn
